@@ -13,6 +13,13 @@ CLAIMED = {
             "typed subsets, refusal before mutation, one store per view); histories are covered by induction over single operations.",
             "Trusts CPython's ast and the extractor's resolution of self.<registry> receivers; does not execute edit histories; "
             "dynamic attribute access other than the __subsets/getattr idiom is not resolved.", "DESIGN.md §4 C14"),
+    "C17": ("partial evaluation (constant folding with the value as a linear form k*x+c) of the conversion branch tree for every "
+            "(parameter, flow unit, darcy_weisbach, mass unit, reaction order) configuration; table comparison with physical definitions",
+            "Exhaustive over the finite configuration space: every configuration is linear, k_to*k_from = 1, and k_to equals the reference "
+            "constant; FlowUnits/MassUnits tables, traditional/metric membership, container branches of the four sibling methods and the "
+            "flag forwarding of to_si/from_si are compared structurally.",
+            "Trusts the partial evaluator (sa/peval.py) and the reference constants in sa/props/c17.py (taken from the property statement and "
+            "EPANET's unit definitions); last-ulp rounding and numpy broadcasting semantics are not decided.", "DESIGN.md §4 C17"),
 }
 
 NOT_APPLICABLE = {
